@@ -10,6 +10,8 @@ THEOREMS = [
     ("EG.props.C14", "C14_resubscribe_overwrites_qos"),
     ("EG.props.C14", "C14_unsub_unknown_is_noop"),
     ("EG.props.C14", "C14_malformed_rejected"),
+    ("EG.props.C14", "C14_offline_not_live"),
+    ("EG.props.C14", "C14_reconnect_restores"),
     ("EG.props.C14", "C14_split_topic_spec"),
     ("EG.props.C14", "C14_matches_dec_correct"),
     ("EG.props.C14", "C14_insert_spec"),
@@ -22,34 +24,39 @@ THEOREMS = [
     ("EG.props.C14", "C14_unchanged_code_on_clean_histories"),
 ]
 HARNESSES = [
-    dict(name="topic", pkg="pkg/object/mqttproxy", files=["harness/mqttproxy/zz_verif_c14_test.go"],
-         run="TestVerifC14", groups=["hist", "wild", "split"], timeout=600),
+    dict(name="topic", pkg="pkg/object/mqttproxy", files=["harness/mqttproxy/zz_verif_c14_test.go", "harness/mqttproxy/zz_verif_c14_conn_test.go"],
+         run="TestVerifC14", groups=["hist", "wild", "conn", "split"], timeout=900),
 ]
-GROUPS = {"hist": "check_hist", "wild": "check_hist", "split": "check_split"}
-EXPLAIN = {"hist": "explain_hist", "wild": "explain_hist", "split": "explain_split"}
-CASES = {"quick": 1500, "thorough": 40000}
-RULE = ("cases: histories of SUBSCRIBE/UNSUBSCRIBE/disconnect by 1-4 clients (through client.go processSubscribe/"
-        "processUnsubscribe/closeAndDelSession) over filters from levels {a,b,'',+,#} incl. malformed ones, interleaved with "
-        "findSubscribers on derived near-miss topics; LRU level cache size 1-3; group wild = topic names containing wildcard "
-        "characters (correspondence only); group split = splitTopic on single strings. non-trivial = some findSubscribers "
-        "returned a subscriber (hist/wild) resp. non-empty string list (split); classes add: rejected-SUBSCRIBE(+1) "
-        "disconnect(+2) >=2 subscribers(+4) wildcard-topic-name(+8); distinct = distinct (group, input) hashes among non-trivial cases")
+GROUPS = {"hist": "check_hist", "wild": "check_hist", "conn": "check_hist", "split": "check_split"}
+EXPLAIN = {"hist": "explain_hist", "wild": "explain_hist", "conn": "explain_hist", "split": "explain_split"}
+CASES = {"quick": 1500, "thorough": 30000}
+RULE = ("cases: histories of CONNECT(clean|persistent)/SUBSCRIBE/UNSUBSCRIBE/connection-end by 1-4 clients over filters from "
+        "levels {a,b,'',+,#} incl. malformed ones, interleaved with findSubscribers on derived near-miss topics; LRU level cache "
+        "size 1-3. group hist/wild: through client.go processSubscribe/processUnsubscribe/closeAndDelSession (wild = topic names "
+        "containing wildcard characters, correspondence only); group conn: raw MQTT peers on Broker.handleConn over net.Pipe with "
+        "persistent sessions, drop + reconnect(cleanSession=false) restoring the stored session, take-over of a connected id, "
+        "connection ends by DISCONNECT / socket close / Broker.deleteSession first, multi-filter UNSUBSCRIBE with never-subscribed "
+        "filters before subscribed ones; group split = splitTopic on single strings. non-trivial = some findSubscribers returned a "
+        "subscriber resp. non-empty string list (split); classes add: rejected-SUBSCRIBE(+1) connection-end(+2) >=2 subscribers(+4) "
+        "wildcard-topic-name(+8) and 16*(persistent(1) persistent-reconnect(2) take-over(4) broker-closed-first(8)); "
+        "distinct = distinct (group, input) hashes among non-trivial cases")
 TRUSTED_BASE = [
-    "model coq/model/Topic.v is hand-written; tied to pkg/object/mqttproxy (topic.go, client.go, session.go) by the per-run correspondence (sampled)",
+    "model coq/model/Topic.v is hand-written; tied to pkg/object/mqttproxy (topic.go, client.go, session.go, broker.go handleConn/setSession/deleteSession) by the per-run correspondence (sampled)",
     "the level LRU cache is not modelled (memo of the pure splitTopic); exercised with sizes 1-3",
-    "harness builds a Broker with only TopicManager + SessionManager (mock storage); pipelines, sockets, persistent (non-clean) sessions are outside this check",
+    "group conn: the harness builds a Broker without listener/watchers and plays the SessionManager's doStore loop itself (pending Session.store goroutines, found in the goroutine dump, are drained into the mock storage after every step) so that the asynchronous session store is settled at step boundaries; the ordering races of that store in production are not covered",
+    "pipelines, sockets, the session-storage watcher, and the take-over of a persistent session by a persistent connection (open finding KF-C16-takeover-teardown, covered by C16) are outside this check; the zero-length filter is not sent over the wire (the paho codec cannot carry it)",
 ]
 ASSUMPTIONS = [
     "every TopicManager operation holds the manager's lock for its whole body (atomic step); histories are sequences of such steps",
     "topic names contain no wildcard character (MQTT-3.3.2-2); the $-topic exception is not part of the statement",
-    "clean sessions: disconnect drops the session (persistent sessions belong to C16)",
-    "theorems are stated for the repaired behaviour (quirk flags off); the unchanged code is covered by C14_refuted_* and the known finding",
+    "live subscriptions = those of connected clients; a persistent session's subscriptions are suspended while it is offline and restored by a cleanSession=false reconnect; a take-over ends the superseded connection",
+    "theorems are stated for the repaired behaviour (quirk flag off = /repo after commit ce10de8); the earlier code is covered by C14_refuted_* and C14_unchanged_code_on_clean_histories",
 ]
 
 MANIFEST = dict(
     design_ref="DESIGN.md section 6 C14",
     level_text=("Theorems over the executable model of splitTopic / insert / remove (with pruning) / findSubscribers and the "
-                "client-level subscribe, unsubscribe, disconnect steps, for ALL histories and ALL topic names: the routed set equals "
+                "connection-level steps (connect clean/persistent incl. take-over and re-subscription from the stored session, subscribe, unsubscribe, connection end), for ALL histories and ALL topic names: the routed set equals "
                 "MQTT 3.1.1 matching over the live subscriptions (declarative finite map by naive replay), every reported QoS is one "
                 "of the client's own matching subscriptions, malformed filters rejected, routing is a function of the live map only "
                 "(no residue); model tied to the Go code on every run by differential correspondence, plus an independent decidable "
@@ -80,6 +87,8 @@ def _op(o):
         return C("TOp", C("Unsub", S(o["c"]), L([S(f) for f in o.get("f") or []])))
     if k == "disc":
         return C("TOp", C("Disc", S(o["c"])))
+    if k == "conn":
+        return C("TOp", C("Conn", S(o["c"]), B(o.get("clean", False))))
     if k == "find":
         return C("TFind", S(o.get("t") or ""))
     raise ValueError(k)
@@ -100,10 +109,37 @@ def _obs(o):
     return "OPanic"
 
 
+def _tag(ops):
+    """bit mask of connection-level shapes: 1 persistent session, 2 persistent reconnect,
+    4 take-over, 8 closed by the broker before the connection ended"""
+    tag, online, seen = 0, {}, set()
+    for o in ops:
+        k, c = o["k"], o.get("c")
+        if k == "conn":
+            clean = bool(o.get("clean", False))
+            if not clean:
+                tag |= 1
+                if c in seen:
+                    tag |= 2
+            if c in online:
+                tag |= 4
+            online[c] = clean
+            seen.add(c)
+        elif k in ("sub", "unsub"):
+            online.setdefault(c, True)
+            seen.add(c)
+        elif k == "disc":
+            if c in online and (o.get("how") or "").startswith("admin"):
+                tag |= 8
+            online.pop(c, None)
+    return tag
+
+
 def encode(c):
     i, o = c["in"], c["obs"]
-    if c["grp"] in ("hist", "wild"):
-        return Rec(h_ops=L([_op(x) for x in i.get("ops") or []]), h_obs=L([_obs(x) for x in o.get("outs") or []]))
+    if c["grp"] in ("hist", "wild", "conn"):
+        ops = i.get("ops") or []
+        return Rec(h_ops=L([_op(x) for x in ops]), h_obs=L([_obs(x) for x in o.get("outs") or []]), h_tag=N(_tag(ops)))
     if c["grp"] == "split":
         return Rec(s_in=L([S(s) for s in i.get("s") or []]),
                    s_obs=L([Opt(r, lambda ls: L([S(x) for x in ls])) for r in o.get("r") or []]))
@@ -128,6 +164,11 @@ def distribution(cases):
             d["op_kinds"][op["k"]] = d["op_kinds"].get(op["k"], 0) + 1
         for op, ob in zip(ops, c["obs"].get("outs") or []):
             k = op["k"] + ":" + ob["k"]
+            if op["k"] == "disc" and op.get("how"):
+                d["op_kinds"]["disc/" + op["how"]] = d["op_kinds"].get("disc/" + op["how"], 0) + 1
+            if op["k"] == "conn":
+                kk = "conn/" + ("clean" if op.get("clean") else "persistent")
+                d["op_kinds"][kk] = d["op_kinds"].get(kk, 0) + 1
             d["obs_kinds"][k] = d["obs_kinds"].get(k, 0) + 1
             if ob["k"] == "found":
                 s = str(len(ob.get("subs") or []))
